@@ -162,3 +162,10 @@ func VerifPolyChallenge(c *[N]int32, seed []uint8) error {
 	*c = p.coeffs
 	return err
 }
+
+// VerifSignAttempts counts rejection-loop iterations of cryptoSignSignature since
+// the process started (single-goroutine use only; it is read by a search tool that
+// looks for inputs with unusually long rejection runs, never by a verdict).
+var VerifSignAttempts uint64
+
+func verifSignAttempt() { VerifSignAttempts++ }
